@@ -36,6 +36,13 @@ def install(I):
             if v is not None:
                 self.attrs[k] = v
                 I.mutations.append((self, k))
+        # lmfit: setting a value (or vary=True) removes an expression constraint; setting an expression fixes the
+        # parameter (vary=False)
+        if expr is None and (value is not None or vary is True) and self.attrs.get("expr") is not None:
+            self.attrs["expr"] = None
+            I.mutations.append((self, "expr"))
+        if expr is not None and expr != "":
+            self.attrs["vary"] = False
         return None
     PARAMETER.ns["set"] = B("Parameter.set", p_set)
 
